@@ -53,6 +53,10 @@ CORPUS = [
     (64, dict(method='pit', dim=1, fold=False, auto=False, userpit='some', ufold='same', train=False, multi=False, excl=False, bnhp=True)),
     (65, dict(method='sn', dim=2, train=False, multi=False, bnhp=True)),
     (66, dict(method='mps', dim=2, train=False, multi=False, bnhp=True)),
+    # a hand-placed PITLinear(fold_bn=True) / PITConv directly followed by BatchNorm, PIT(fold_bn=True)
+    (81, dict(method='pit', dim=1, fold=True, auto=False, userpit='some', ufold='same', train=False, multi=False, excl=False, want='linear')),
+    (82, dict(method='pit', dim=2, fold=True, auto=True, userpit='some', ufold='same', train=True, multi=False, excl=False, want='linear')),
+    (83, dict(method='pit', dim=2, fold=True, auto=False, userpit='all', ufold='same', train=True, multi=False, excl=False, want='conv2d')),
     # the same conv + BatchNorm modules applied at two call sites
     (71, dict(method='pit', dim=2, fold=True, auto=True, userpit='none', train=False, multi=False, excl=False, twice=True)),
     (72, dict(method='pit', dim=1, fold=True, auto=False, userpit='all', ufold='same', train=True, multi=False, excl=False, twice=True)),
@@ -100,6 +104,14 @@ def gen_cases(ctx):
                 add(dict(method='sn', dim=dim, train=train, multi=rng.random() < 0.3))
                 add(dict(method='mps', dim=dim, train=train, multi=False))
                 add(dict(method='mps', dim=2, train=train, multi=False))
+    # hand-placed PIT layers of every kind directly followed by a BatchNorm, built with fold_bn=True and False, wrapped with
+    # PIT(fold_bn=True / False), autoconvert on / off, compared with the original in eval mode straight after wrapping
+    for rep in range(1 if ctx.quick else n):
+        for want in ('linear', 'conv1d', 'conv2d'):
+            for fold in (False, True):
+                for ufold in ('same', 'default'):
+                    add(dict(method='pit', dim=2 if want == 'conv2d' else 1 if want == 'conv1d' else rng.choice([1, 2]), fold=fold, auto=rng.random() < 0.5,
+                             userpit=rng.choice(['some', 'all']), ufold=ufold, train=rng.random() < 0.5, multi=False, excl=False, want=want))
     # forward() that reads self.training (extra log_softmax / relu, auxiliary head while training, a traced sub-block):
     # fx bakes the branch at trace time, the eval-time function is the one that must be preserved
     for rep in range(n):
@@ -118,7 +130,7 @@ def gen_cases(ctx):
 def cfg_tag(cfg):
     if cfg['method'] != 'pit':
         return '%s%s%s:%s' % ('mixed-flags:' if cfg.get('mixed') else '', ('training-branch:' if cfg.get('tbranch') else '') + ('bn-hp:' if cfg.get('bnhp') else '') + ('two-call-sites:' if cfg.get('twice') else ''), cfg['method'], 'train' if cfg['train'] else 'eval')
-    return ('mixed-flags:' if cfg.get('mixed') else '') + ('training-branch:' if cfg.get('tbranch') else '') + ('bn-hp:' if cfg.get('bnhp') else '') + ('two-call-sites:' if cfg.get('twice') else '') + 'pit:%s:%s:%s%s:%s' % ('auto' if cfg['auto'] else 'import', 'userpit-' + cfg.get('userpit', 'none'), 'fold' if cfg['fold'] else 'nofold',
+    return ('mixed-flags:' if cfg.get('mixed') else '') + ('training-branch:' if cfg.get('tbranch') else '') + ('bn-hp:' if cfg.get('bnhp') else '') + ('two-call-sites:' if cfg.get('twice') else '') + ('placed-%s-bn:' % cfg['want'] if cfg.get('want') else '') + 'pit:%s:%s:%s%s:%s' % ('auto' if cfg['auto'] else 'import', 'userpit-' + cfg.get('userpit', 'none'), 'fold' if cfg['fold'] else 'nofold',
                                   ':int' if cfg.get('integer') else '', 'train' if cfg['train'] else 'eval')
 
 
@@ -228,7 +240,7 @@ def run(ctx):
             fl = [(c, f) for c, o in good for f in o['obs'].get('folds', [])]
             ex2 = ['run_fold %s %s %s %s %s %s' % (coq(Fraction(f['g'])), coq(Fraction(f['be'])), coq(Fraction(f['mu'])), coq(Fraction(f['r'])),
                                                   coq([Fraction(x) for x in f['w']]), 'None' if f['b'] is None else '(Some %s)' % coq(Fraction(f['b']))) for c, f in fl]
-            v2 = ctx.coq_eval_sharded('fold', ['Plinio.Model.Import'], '', ex2, shard=200) if ex2 else []
+            v2 = ctx.coq_eval_sharded('fold', ['Plinio.Model.Import'], '', ex2, shard=25) if ex2 else []
             # the model GENERATED from the BatchNorm folding / fusion source on this run
             gv2 = ctx.coq_eval_sharded('gfold', c07_gen.IMPORTS, '', c07_gen.gen_exprs(ex2), shard=200) if ex2 else []
             mism += c07_gen.differences(fl, v2, gv2)
